@@ -47,9 +47,12 @@ type stCase struct {
 	dt                                         float64
 	levels, volumes, areas, minRel, maxRel     []float64
 	rain, pet, inflow, demand                  []float64
+	tminVol, tminCap                           []float64 // the two further input series of the model (targetMinimumVolume / targetMinimumCapacity)
 	v0                                         float64
 	style                                      string
 }
+
+var stiffLong = false
 
 func genStorageCase(r *rand.Rand, T int) *stCase {
 	c := &stCase{n: 2 + r.Intn(4), dt: []float64{86400, 86400, 3600}[r.Intn(3)]}
@@ -76,7 +79,17 @@ func genStorageCase(r *rand.Rand, T int) *stCase {
 		c.levels[k], c.volumes[k], c.areas[k], c.minRel[k], c.maxRel[k] = lv, vol, ar, mn, mx
 	}
 	full := c.volumes[n-1]
-	c.style = []string{"fill", "drawdown", "mixed", "quiet", "weir"}[r.Intn(5)]
+	c.style = []string{"fill", "drawdown", "mixed", "quiet", "weir", "surcharged"}[r.Intn(6)]
+	if stiffLong {
+		// a linear reservoir (coinciding release curves proportional to the volume) that is stiff at the daily timestep:
+		// one to two thousand sub-timesteps per day, for hundreds of days in ONE call
+		c.style = "stiff-long"
+		c.n, n = 2, 2
+		c.dt = 86400
+		k := (1 + r.Float64()) * 1.5e-5
+		c.levels, c.volumes, c.areas = []float64{0, 100}, []float64{0, 1e9}, []float64{0, 0}
+		c.minRel, c.maxRel = []float64{0, k * 1e9}, []float64{0, k * 1e9}
+	}
 	if c.style == "weir" {
 		// a small pool behind a big spillway, held around its full-supply volume
 		for k := range c.volumes {
@@ -88,7 +101,22 @@ func genStorageCase(r *rand.Rand, T int) *stCase {
 	if c.style == "weir" {
 		c.v0 = (0.8 + 0.2*r.Float64()) * full
 	}
+	if c.style == "surcharged" {
+		// starts ABOVE the full-supply volume (where a run ends when the inflow exceeded what the spillway passes)
+		c.v0 = (1.02 + 0.5*r.Float64()) * full
+	}
+	if c.style == "stiff-long" {
+		c.v0 = 0
+	}
 	c.rain, c.pet, c.inflow, c.demand = make([]float64, T), make([]float64, T), make([]float64, T), make([]float64, T)
+	c.tminVol, c.tminCap = make([]float64, T), make([]float64, T)
+	if r.Intn(3) == 0 {
+		// the model reads two more input series; whatever it does with them, the laws hold
+		a, b := r.Float64()*0.3*full, r.Float64()*0.3*full
+		for t := 0; t < T; t++ {
+			c.tminVol[t], c.tminCap[t] = a*r.Float64(), b*r.Float64()
+		}
+	}
 	perDay := c.dt / 86400
 	for t := 0; t < T; t++ {
 		switch c.style {
@@ -101,6 +129,16 @@ func genStorageCase(r *rand.Rand, T int) *stCase {
 			c.inflow[t] = r.Float64() * 0.5
 			c.demand[t] = r.Float64() * 3 * full / (float64(T) * c.dt)
 			c.pet[t] = r.Float64() * 12 * perDay
+		case "surcharged":
+			c.inflow[t] = c.maxRel[n-1] * 2 * r.Float64()
+			if (t/7)%2 == 1 {
+				c.inflow[t] = 0
+			}
+			c.demand[t] = r.Float64() * 5
+			c.rain[t] = r.ExpFloat64() * 5 * perDay
+			c.pet[t] = r.Float64() * 4 * perDay
+		case "stiff-long":
+			c.inflow[t] = []float64{10, 30}[(t/3)%2] * (0.5 + r.Float64())
 		case "quiet":
 			c.inflow[t] = r.Float64() * 2
 			c.demand[t] = r.Float64() * 2
@@ -159,11 +197,16 @@ func storagelawsEngine(args []string) error {
 	s := &summary{Engine: "storagelaws"}
 	for cno := 0; cno < nCases; cno++ {
 		r := rand.New(rand.NewSource(seed()*7919 + int64(cno)))
+		T := T
+		stiffLong = cno%150 == 7
+		if stiffLong {
+			T = 420
+		}
 		c := genStorageCase(r, T)
+		stiffLong = false
 		if cno < from || (only >= 0 && cno != only) {
 			continue
 		}
-		T := T
 		if steps > 0 && steps < T {
 			T = steps
 			c.rain, c.pet, c.inflow, c.demand = c.rain[:T], c.pet[:T], c.inflow[:T], c.demand[:T]
@@ -195,8 +238,7 @@ func storagelawsEngine(args []string) error {
 		}
 		mc.TableLen = []int{c.n}
 		mc.layout()
-		zeros := make([]float64, T)
-		mc.Inputs = [][][]float64{{c.rain, c.pet, c.inflow, c.demand, zeros, zeros}}
+		mc.Inputs = [][][]float64{{c.rain, c.pet, c.inflow, c.demand, c.tminVol[:T], c.tminCap[:T]}}
 		mc.States = [][]float64{{c.v0, 0, 0}}
 		type hookEv struct {
 			kind string
